@@ -15,7 +15,7 @@ type Mismatch struct {
 	Expected string `json:"expected,omitempty"` // specification
 	Model    string `json:"model,omitempty"`
 	Impl     string `json:"impl,omitempty"`
-	InDomain bool   `json:"in_domain"`          // input lies in the property's quantifier
+	InDomain bool   `json:"in_domain"` // input lies in the property's quantifier
 }
 
 // Result is what one harness run reports to bin/check.
